@@ -79,7 +79,7 @@ CLAIMED={
    technique="explicit-state search + predictive lock-order analysis confirmed by deviation-bounded schedule exploration of the implementation",
    ref="DESIGN.md 4 (C06)"),
  "C01": dict(
-   text="Every history to the tier's depth over a 15-symbol crash alphabet is run on the real server on a recording disk; every crash image (every cut of the write/barrier trace x every loss choice of un-barriered writes, full product up to the cap per epoch) is checked with an independent fsck and recovered with the real MakeNfs under two schedules; the recovered tree must equal the reference after a prefix containing every stably acknowledged operation; then allocator/cache audit, further operations (incl. writes across and far beyond the end of every surviving file), dump and fsck.",
+   text="Every history to the tier's depth over a 17-symbol crash alphabet is run on the real server on a recording disk; every crash image (every cut of the write/barrier trace x every loss choice of un-barriered writes, full product up to the cap per epoch) is checked with an independent fsck and recovered with the real MakeNfs under two schedules; the recovered tree must equal the reference after a prefix containing every stably acknowledged operation; then allocator/cache audit, further operations (incl. writes across and far beyond the end of every surviving file), dump and fsck.",
    note="Trusted: Disk contract (atomic block writes; Barrier persists all earlier writes), reference model, the canonical image key (home blocks + header + live log entries). Bounds: history depth, alphabet, loss product cap (capped epochs fall back to <=2 deviations + issue-order prefixes and are reported exhaustive:false), two background policies and two recovery schedules rather than all schedules; a second crash during recovery (nested, loss cap 16) for the single-operation histories in quick and all histories in thorough.",
    technique="crash-image enumeration over recorded disk traces of all bounded operation histories, recovery by the implementation, reference-model prefix oracle",
    ref="DESIGN.md 4 (C01)"),
